@@ -1159,7 +1159,7 @@ func expand(f *seqx.Family, t Task, letter string) (seqx.Succ, error) {
 		}
 		comboCap := 4000
 		if t.Tier == "thorough" {
-			comboCap = 200000
+			comboCap = 40000
 		}
 		if total > comboCap {
 			s.Dis = append(s.Dis, drv.Dis{Props: []string{"CAP"}, Msg: fmt.Sprintf("more than %d tail-loss combinations at one point (%d): the first %d were evaluated", comboCap, total, comboCap)})
